@@ -1,5 +1,79 @@
 import Driver.Proto
-/-! C09 handler (not implemented yet). -/
+import ThunderModel.Fed.SchemaMerge
+/-! C09 handler. Wire: Ty = {"n":[kind,name]} | {"l":Ty} | {"nn":Ty};
+TypeDef = {"scalar":true} | {"enum":[names]} | {"union":[names]} | {"object":[[name,{"type":Ty,"args":[[name,Ty]]}]]} | {"input":[[name,Ty]]};
+Schema = [[name, TypeDef]] (sorted by name). -/
+open Lean TM.SM
+
 namespace Driver.C09
-def handle : Handler := fun _ => throw "C09: no model yet"
+
+partial def decTy (j : Json) : Except String Ty := do
+  if let .ok v := j.getObjVal? "n" then
+    let a ← v.getArr?
+    return .named (← (a[0]?.getD Json.null).getNat?) (← (a[1]?.getD Json.null).getNat?)
+  if let .ok v := j.getObjVal? "l" then return .list (← decTy v)
+  if let .ok v := j.getObjVal? "nn" then return .nonNull (← decTy v)
+  throw "bad Ty"
+
+partial def encTy : Ty → Json
+  | .named k n => Json.mkObj [("n", Json.arr #[(k : Json), (n : Json)])]
+  | .list t => Json.mkObj [("l", encTy t)]
+  | .nonNull t => Json.mkObj [("nn", encTy t)]
+
+def decPairs {α} (f : Json → Except String α) (j : Json) : Except String (List (Nat × α)) := do
+  let a ← j.getArr?
+  a.toList.mapM fun kv => do
+    let p ← kv.getArr?
+    let k ← (p[0]?.getD Json.null).getNat?
+    let v ← f (p[1]?.getD Json.null)
+    pure (k, v)
+
+def decNames (j : Json) : Except String (List (Nat × Unit)) := do
+  let l ← nats j
+  pure (l.map (fun n => (n, ())))
+
+def decField (j : Json) : Except String Field := do
+  pure ⟨← decTy (← field j "type"), ← decPairs decTy (← field j "args")⟩
+
+def decTypeDef (j : Json) : Except String TypeDef := do
+  if let .ok _ := j.getObjVal? "scalar" then return .scalar
+  if let .ok v := j.getObjVal? "enum" then return .enum (← decNames v)
+  if let .ok v := j.getObjVal? "union" then return .union (← decNames v)
+  if let .ok v := j.getObjVal? "object" then return .object (← decPairs decField v)
+  if let .ok v := j.getObjVal? "input" then return .input (← decPairs decTy v)
+  throw "bad TypeDef"
+
+def encPairs {α} (f : α → Json) (l : List (Nat × α)) : Json :=
+  Json.arr (l.map fun (k, v) => Json.arr #[(k : Json), f v]).toArray
+
+def encField (f : Field) : Json := Json.mkObj [("type", encTy f.type), ("args", encPairs encTy f.args)]
+
+def encTypeDef : TypeDef → Json
+  | .scalar => Json.mkObj [("scalar", true)]
+  | .enum vs => Json.mkObj [("enum", jNats (vs.map (·.1)))]
+  | .union vs => Json.mkObj [("union", jNats (vs.map (·.1)))]
+  | .object fs => Json.mkObj [("object", encPairs encField fs)]
+  | .input fs => Json.mkObj [("input", encPairs encTy fs)]
+
+def decSchema (j : Json) : Except String Schema := decPairs decTypeDef j
+def encSchema (s : Schema) : Json := encPairs encTypeDef s
+
+/-- intersection over the versions of each service, then union over the services -/
+def mergeAll (services : List (List Schema)) : Option Schema := do
+  let per ← services.mapM (mergeSlice false)
+  mergeSlice true per
+
+def handle : Handler := fun req => do
+  let op ← str req "op"
+  match op with
+  | "merge" =>
+    let services ← listOf (listOf decSchema) (← field req "services")
+    pure <| Json.mkObj [("merged", jOpt encSchema (mergeAll services))]
+  | "pair" =>
+    let a ← decSchema (← field req "a")
+    let b ← decSchema (← field req "b")
+    let mode ← bool req "union"
+    pure <| Json.mkObj [("ab", jOpt encSchema (mergeSchemas mode a b)), ("ba", jOpt encSchema (mergeSchemas mode b a))]
+  | _ => throw s!"C09: unknown op {op}"
+
 end Driver.C09
